@@ -1027,6 +1027,10 @@ func cmdRepo(args []string) {
 					badDone = true
 					count--
 					l = fmt.Sprintf("lodbad %d %d", r.Intn(8), r.Intn(5))
+				case count == snapAt+1 && badDone && r.Chance(1, 2):
+					// after a REFUSED load go on with the old contents (no successful load that would reset everything):
+					// whatever the refused load left behind must not show
+					l = g.next(dump, issued, implFamily(*impl))
 				case count == snapAt+1:
 					l = "lod " + rng.Pick(r, []string{"raw", "json", "zone"})
 				default:
